@@ -123,7 +123,7 @@ Theorem C13_usable_after_fault : forall users blk w0 e,
   raised w0 (gstep users blk w0 e) ->
   let w1 := gstep users blk w0 e in
   (fw_codes (gstep users blk w1 (probe_ev "pwd")) = [code "257"] /\
-   fw_info (gstep users blk w1 (probe_ev "pwd")) = quoted (path_str (s_cwd (fw_s w0)))) /\
+   fw_info (gstep users blk w1 (probe_ev "pwd")) = quoted (dbl_quote (path_str (s_cwd (fw_s w0))))) /\
   (fw_codes (gstep users blk w1 (probe_ev "pasv")) = [code "227"] /\
    s_passive (fw_s (gstep users blk w1 (probe_ev "pasv"))) = true /\
    s_ended (fw_s (gstep users blk w1 (probe_ev "pasv"))) = false).
